@@ -244,7 +244,11 @@ Definition trav_message (be : bool) (b : list Z) (m : message) (cl : clevel) (ba
   | Some bl =>
     let v := {| lv_start := base; lv_level := base + m_hdr_size m; lv_bl := bl;
                 lv_end := len b |} in
-    match trav_level be b (default_fuel b) (m_level m) cl v (base + m_hdr_size m) [] with
+    (* a message without members skips its block in the generated
+       visit_children (entries do it in their cursor constructor) *)
+    let c0 := if is_empty_level (m_level m) cl then base + m_hdr_size m + bl
+              else base + m_hdr_size m in
+    match trav_level be b (default_fuel b) (m_level m) cl v c0 [] with
     | COk acc c => COk (rev acc) c
     | CAssert => CAssert
     | COob => COob
